@@ -52,14 +52,16 @@ func runC17(e *Env) {
 	e.Flow(func(c *flow.Ctx) { c.RuleInputReadOnly(entries...) })
 	e.S.Floor("C17.ro", 11)
 
-	ruleAliasFree(e)
+	ruleAliasFree(e, "C17.alias", false)
 	ruleGeneric(e, entries)
 }
 
 // ruleAliasFree: C17.alias.
-func ruleAliasFree(e *Env) {
-	const rule = "C17.alias"
+func ruleAliasFree(e *Env, rule string, semOnly bool) {
 	for _, t := range [][2]string{{"date", "Date"}, {"roman", "Number"}, {"size", "Size"}, {"uu", "ID"}} {
+		if semOnly {
+			break
+		}
 		sp := e.P.ByName[t[0]]
 		if sp == nil || sp.Type(t[1]) == nil {
 			e.S.Unk(rule, t[0]+"."+t[1], "anchor", "result type not found", "")
@@ -126,7 +128,7 @@ func ruleAliasFree(e *Env) {
 	// unsafe is not imported by any value package
 	for _, pkg := range append(append([]string(nil), ValuePkgs...), "internal") {
 		p := e.P.ByPkg[pkg]
-		if p == nil {
+		if p == nil || semOnly && pkg != "sem" && pkg != "internal" {
 			continue
 		}
 		uses := false
